@@ -99,6 +99,14 @@ def cases(seed, tier):
         if rng.random() < 0.2:
             pol['compressions'] = prof['comp'] if rng.random() < 0.6 else ['none']
         c = {'profile': prof, 'policy': pol, 'opts': rng.choice([['-n'], ['-j'], ['-jj'], ['-n', '-b'], ['-n', '-v']]), 'pseed': rng.getrandbits(32)}
+        rd = gen.case_rng(seed, ID, i, 'degenerate')
+        if pol.get('hostkey_sizes') and rd.random() < 0.08:
+            # a degenerate peer: an RSA host key (and CA key) with a modulus of a few bits only; whatever size the tool derives
+            # for it, it is not the one the policy lists
+            prof['keys']['ssh-rsa']['bits'] = rd.choice([1, 7, 8, 64])
+            prof['keys']['ssh-rsa-cert-v01@openssh.com']['bits'] = prof['keys']['ssh-rsa']['bits']
+            if prof['keys']['ssh-rsa-cert-v01@openssh.com']['ca_type'] == 'ssh-rsa' and rd.random() < 0.5:
+                prof['keys']['ssh-rsa-cert-v01@openssh.com']['ca_bits'] = rd.choice([1, 7, 8, 64])
         if gen.case_rng(seed, ID, i, 'via').random() < 0.15:
             # the same audit requested through a one-line targets file: the rules do not depend on how the target was named
             c['via_file'] = True
